@@ -18,8 +18,11 @@ The engine (`StateMachine._perform_transition`: leave → switch → enter → c
 the parent state ENABLED has no handlers.  Timers are explicit inputs guarded by the `…Armed` flags.  The boundary is the
 one the harness replaces: an in-memory connection (link = connected **and** selected) and a fake `threading.Timer`.
 
-Two behaviours of the shipped code that the property text rules out are carried as variant flags (`Cfg.sysChecked`,
-`Cfg.commackGate`, both `false` for the code as it is; see proposals/C07-*.md).
+Two behaviours that the property text rules out are carried as variant flags: `Cfg.sysChecked` (`false` for the code as it
+is: the system bytes of an S1F14 are not compared, finding c07-s1f14-system-unchecked) and `Cfg.commackGate` (`true` for the
+code as it is since the fix "an inbound S1F13 answered with COMMACK != 0 does not establish communication"; `false` is the
+code before it).  The harness finds out on every run which variant the implementation shows and drives the model with it; see
+proposals/C07-*.md.
 -/
 namespace SecsModel.Model.GemComm
 open SecsModel SecsModel.Spec.E30Comm
